@@ -53,10 +53,13 @@ type Session struct {
 	Hdr    string // forwarded header identity: "h1" | "h2"
 	Sync   bool   // ResolveGraphQLSubscription instead of AsyncResolveGraphQLSubscription
 	Filter bool   // subscription filter that drops events of kind 2 (e2)
-	HB     bool   // ExecutionOptions.SendHeartbeat
-	Shape  int    // 0: selects {v}; 1: selects {v k}
-	Conn   int64  // async: connection id
-	SubID  int64  // async: subscription id
+	// FilterVar != 0: the subscriber uses the filter object SHARED by all such subscribers,
+	// IN(k; $fk), with its own variable fk = FilterVar (event e2 has kind 2, the others kind 1)
+	FilterVar int
+	HB        bool  // ExecutionOptions.SendHeartbeat
+	Shape     int   // 0: selects {v}; 1: selects {v k}
+	Conn      int64 // async: connection id
+	SubID     int64 // async: subscription id
 	// Action after subscribe returned (async) / concurrently (sync):
 	//  "unsub"       UnsubscribeSubscription(id)                       (async)
 	//  "cancel"      cancel the client context [then UnsubscribeSubscription(id) when async, as a transport does]
@@ -70,6 +73,8 @@ type Session struct {
 	// AfterDone: the action waits until the source of the subscriber's trigger has begun
 	// its Done call (a client that goes away while the upstream is finishing).
 	AfterDone bool
+	// AfterSub: the action waits until the named other subscription has been completed.
+	AfterSub string
 }
 
 func (s Session) key() string { return s.Input + "|" + s.Hdr }
@@ -237,6 +242,18 @@ func Scenarios(prop string, thorough bool) []Scenario {
 		// two subscriptions on ONE connection, the heartbeat of one of them fails, events follow
 		{Name: "S28-heartbeat-fault-sibling-subscription", MaxBound: 3, Actors: []Actor{{Name: "A", Sessions: []Session{{Name: "A1", Input: "a", Hdr: "h1", Conn: 1, SubID: 1, Action: "none", HB: true}, {Name: "A2", Input: "a", Hdr: "h1", Conn: 1, SubID: 2, Action: "none", Shape: 1}}}},
 			Progs: map[string][][]Step{k: {{U(1), U(2), D}, {U(1), D}}}, Ticks: 1, HBFault: map[string]bool{"A1": true}},
+		// two subscribers share ONE filter object with different variables: every event passes exactly one of them
+		{Name: "S29-shared-filter-different-variables", Actors: []Actor{one("A", with(async("A", "a", "h1", 1, "none"), func(s *Session) { s.FilterVar = 1 })), one("B", with(async("B", "a", "h1", 2, "none"), func(s *Session) { s.FilterVar = 2; s.Shape = 1 }))},
+			Progs: map[string][][]Step{k: {{U(1), U(2), U(3), D}, {U(1), U(2), D}}}},
+		// the start-up hook of a joining subscriber fails late: the subscriber may have unsubscribed meanwhile (error written through the AsyncErrorWriter)
+		{Name: "S30-joiner-hook-fails-after-unsubscribe", Actors: []Actor{one("A", async("A", "a", "h1", 1, "none")), one("B", async("B", "a", "h1", 2, "unsub"))},
+			Progs: map[string][][]Step{k: {{U(1), D}, {U(1), D}}}, Hook: true, HookFail: map[string]bool{"B": true}},
+		// two client connections on ONE trigger, one client disconnects (UnsubscribeClient) while the other stays
+		{Name: "S31-two-connections-one-disconnects", Actors: []Actor{one("A", with(async("A", "a", "h1", 1, "unsubClient"), func(s *Session) { s.After = 1 })), one("B", with(async("B", "a", "h1", 2, "none"), func(s *Session) { s.Shape = 1 }))},
+			Progs: map[string][][]Step{k: {{U(1), U(2), D}, {U(1), D}}}},
+		// ONE connection with subscriptions on TWO triggers, one upstream ends from the source side, then the client disconnects
+		{Name: "S32-one-connection-two-triggers-source-ends-one", Actors: []Actor{{Name: "A", Sessions: []Session{{Name: "A1", Input: "a", Hdr: "h1", Conn: 1, SubID: 1, Action: "none"}, {Name: "A2", Input: "b", Hdr: "h1", Conn: 1, SubID: 2, Action: "unsubClient", AfterSub: "A1"}}}},
+			Progs: map[string][][]Step{"a|h1": {{U(1), C, D}}, "b|h1": {{U(1), U(2)}}}},
 		{Name: "S20-leave-and-join", Actors: []Actor{one("A", async("A", "a", "h1", 1, "unsub")), one("B", async("B", "a", "h1", 2, "none"))},
 			Progs: map[string][][]Step{k: {{U(1), U(2)}, {U(1), U(2)}}}},
 
